@@ -207,6 +207,10 @@ func (x *Exec) havocLoop(s *State, f *Frame, lp *Loop, phis []*ssa.Phi) {
 }
 
 type modSet struct {
+	// region: the blocks being scanned; a store into an object allocated inside
+	// the region does not modify any object that existed before the region was
+	// entered, so it is not a modification the caller / loop entry can observe.
+	region    map[*ssa.BasicBlock]bool
 	Heap      map[string]bool
 	Ghost     map[string]bool
 	CellAddrs []ssa.Value
@@ -227,6 +231,13 @@ func (x *Exec) loopMods(fn *ssa.Function, lp *Loop, spec *FuncSpec, depth int) *
 
 func (x *Exec) scanMods(fn *ssa.Function, blocks []*ssa.BasicBlock, spec *FuncSpec, ms *modSet, depth int, seen map[*ssa.Function]bool) {
 	sm := x.sites(fn)
+	region := map[*ssa.BasicBlock]bool{}
+	for _, b := range blocks {
+		region[b] = true
+	}
+	saved := ms.region
+	ms.region = region
+	defer func() { ms.region = saved }()
 	for _, b := range blocks {
 		for _, in := range b.Instrs {
 			// ghost updates attached to sites
@@ -275,6 +286,9 @@ func (x *Exec) addrMods(addr ssa.Value, ms *modSet) {
 			names = append([]string{st.Underlying().(*types.Struct).Field(fa.Field).Name()}, names...)
 			comp = typeKey(st)
 			cur = fa.X
+		}
+		if al, ok := cur.(*ssa.Alloc); ok && ms.region != nil && ms.region[al.Block()] {
+			return // field of an object allocated in the scanned region
 		}
 		for _, n := range names {
 			comp += "." + n
